@@ -71,7 +71,9 @@ def overflowingAddSigned (w : Nat) (a b : List Nat) : List Nat × Bool :=
 
 def checkedAdd (w : Nat) (a b : List Nat) := tupleToOption (overflowingAdd w a b)
 def checkedSub (w : Nat) (a b : List Nat) := tupleToOption (overflowingSub w a b)
-def checkedNeg (w : Nat) (a : List Nat) := tupleToOption (overflowingNeg w a)
+/-- `BUint::checked_neg`: `if self.is_zero() { Some(self) } else { None }` (not a projection of
+    `overflowing_neg`; `w` is unused but kept so that the signature is unchanged) -/
+def checkedNeg (_w : Nat) (a : List Nat) : Option (List Nat) := if isZero a then some a else none
 def checkedAddSigned (w : Nat) (a b : List Nat) := tupleToOption (overflowingAddSigned w a b)
 def wrappingAdd (w : Nat) (a b : List Nat) := (overflowingAdd w a b).1
 def wrappingSub (w : Nat) (a b : List Nat) := (overflowingSub w a b).1
@@ -99,6 +101,20 @@ def borrowingSub (w : Nat) (a b : List Nat) (borrow : Bool) : List Nat × Bool :
     let r2 := overflowingSub w r1.1 (one a.length)
     (r2.1, r1.2 ^^ r2.2)
   else r1
+
+/-! `int/strict.rs impls!`, `buint/strict.rs`: `option_expect!(self.checked_*(..), ..)` -/
+def strictAdd (w : Nat) (a b : List Nat) : Outcome (List Nat) := Outcome.expect (checkedAdd w a b)
+def strictSub (w : Nat) (a b : List Nat) : Outcome (List Nat) := Outcome.expect (checkedSub w a b)
+def strictNeg (w : Nat) (a : List Nat) : Outcome (List Nat) := Outcome.expect (checkedNeg w a)
+def strictAddSigned (w : Nat) (a b : List Nat) : Outcome (List Nat) :=
+  Outcome.expect (checkedAddSigned w a b)
+/-- unsuffixed `add` of `int/ops.rs trait_fillers!` (= `Add::add`): `strict_add` under
+    `debug_assertions`, `wrapping_add` otherwise -/
+def add (dbg : Bool) (w : Nat) (a b : List Nat) : Outcome (List Nat) :=
+  if dbg then strictAdd w a b else .ok (wrappingAdd w a b)
+/-- unsuffixed `sub` of `trait_fillers!` -/
+def sub (dbg : Bool) (w : Nat) (a b : List Nat) : Outcome (List Nat) :=
+  if dbg then strictSub w a b else .ok (wrappingSub w a b)
 end UI
 
 namespace II
@@ -211,5 +227,22 @@ def borrowingSub (w : Nat) (a b : List Nat) (borrow : Bool) : List Nat × Bool :
     let r2 := overflowingSub w r1.1 (one a.length)
     (r2.1, r1.2 ^^ r2.2)
   else r1
+
+/-! `int/strict.rs impls!`, `bint/strict.rs`: `option_expect!(self.checked_*(..), ..)` -/
+def strictAdd (w : Nat) (a b : List Nat) : Outcome (List Nat) := Outcome.expect (checkedAdd w a b)
+def strictSub (w : Nat) (a b : List Nat) : Outcome (List Nat) := Outcome.expect (checkedSub w a b)
+def strictNeg (w : Nat) (a : List Nat) : Outcome (List Nat) := Outcome.expect (checkedNeg w a)
+def strictAbs (w : Nat) (a : List Nat) : Outcome (List Nat) := Outcome.expect (checkedAbs w a)
+def strictAddUnsigned (w : Nat) (a b : List Nat) : Outcome (List Nat) :=
+  Outcome.expect (checkedAddUnsigned w a b)
+def strictSubUnsigned (w : Nat) (a b : List Nat) : Outcome (List Nat) :=
+  Outcome.expect (checkedSubUnsigned w a b)
+/-- unsuffixed `add` of `int/ops.rs trait_fillers!`: `strict_add` under `debug_assertions`,
+    `wrapping_add` otherwise -/
+def add (dbg : Bool) (w : Nat) (a b : List Nat) : Outcome (List Nat) :=
+  if dbg then strictAdd w a b else .ok (wrappingAdd w a b)
+/-- unsuffixed `sub` of `trait_fillers!` -/
+def sub (dbg : Bool) (w : Nat) (a b : List Nat) : Outcome (List Nat) :=
+  if dbg then strictSub w a b else .ok (wrappingSub w a b)
 end II
 end Bnum
